@@ -9,6 +9,7 @@ package main
 import (
 	"encoding/json"
 	"fmt"
+	"math"
 	"os"
 	"path/filepath"
 	"sort"
@@ -90,7 +91,17 @@ type sub struct {
 
 const recorderID = -7
 
-var chunkSizes = []int{1, 2, 3, 7, 100, 1000}
+// every chunk size >= 1, including sizes no slice can have
+var chunkSizes = []int{1, 2, 3, 7, 100, 1000, math.MaxInt32 + 1, 1 << 40, math.MaxInt}
+
+// coqMax renders a chunk size for the model: its budget is a unary number, and beyond the size of
+// the universe (< 100 blocks) a larger budget cannot change the result.
+func coqMax(max int) int {
+	if max > 4096 {
+		return 4096
+	}
+	return max
+}
 
 // world is one run of a history.
 type world struct {
@@ -385,7 +396,7 @@ func (w *world) poll(id int, max int) {
 		}
 		if err != nil {
 			w.stats["polls-bogus-error"]++
-			w.coq = append(w.coq, fmt.Sprintf("EPoll %s %d None", w.coqIdx(before, sb.coqID), max))
+			w.coq = append(w.coq, fmt.Sprintf("EPoll %s %d None", w.coqIdx(before, sb.coqID), coqMax(max)))
 		} else {
 			// rendered for the model as well (never folded)
 			after, _, _ := subs.CheckChunk(sb.idx, 1<<30, rus, aus)
@@ -396,7 +407,7 @@ func (w *world) poll(id int, max int) {
 			for _, au := range aus {
 				aids = append(aids, fmt.Sprint(w.nodeOf(au.State.Index)))
 			}
-			w.coq = append(w.coq, fmt.Sprintf("EPoll %s %d (Some ([%s], [%s], %s))", w.coqIdx(before, sb.coqID), max, strings.Join(rids, "; "), strings.Join(aids, "; "), w.coqIdx(after, sb.coqID)))
+			w.coq = append(w.coq, fmt.Sprintf("EPoll %s %d (Some ([%s], [%s], %s))", w.coqIdx(before, sb.coqID), coqMax(max), strings.Join(rids, "; "), strings.Join(aids, "; "), w.coqIdx(after, sb.coqID)))
 		}
 		return
 	}
@@ -424,7 +435,7 @@ func (w *world) poll(id int, max int) {
 	if err != nil {
 		w.stats["polls-error"]++
 		if !sb.rec {
-			w.coq = append(w.coq, fmt.Sprintf("EPoll %s %d None", w.coqIdx(before, 0), max))
+			w.coq = append(w.coq, fmt.Sprintf("EPoll %s %d None", w.coqIdx(before, 0), coqMax(max)))
 		}
 		if lost >= 0 && !expectErr {
 			w.report("c04-held-index-lost", "UpdatesSince(%v [block %d], %d) failed (%v): block %d on the subscriber's path (reverts %v, applies %v) was applied earlier and never pruned, its body is still stored, but its supplement is gone (a later submission re-stored it)", sb.idx, w.nodeOf(sb.idx), max, err, lost, revs, apps)
@@ -446,7 +457,7 @@ func (w *world) poll(id int, max int) {
 		aids = append(aids, fmt.Sprint(w.nodeOf(au.State.Index)))
 	}
 	if !sb.rec {
-		w.coq = append(w.coq, fmt.Sprintf("EPoll %s %d (Some ([%s], [%s], %s))", w.coqIdx(before, 0), max, strings.Join(rids, "; "), strings.Join(aids, "; "), w.coqIdx(after, 0)))
+		w.coq = append(w.coq, fmt.Sprintf("EPoll %s %d (Some ([%s], [%s], %s))", w.coqIdx(before, 0), coqMax(max), strings.Join(rids, "; "), strings.Join(aids, "; "), w.coqIdx(after, 0)))
 	}
 	if len(rus) > 0 {
 		w.stats["chunks-with-reverts"]++
@@ -594,7 +605,11 @@ func (w *world) finish(r *rng.R) {
 			w.report("c04-did-not-catch-up", "subscriber %d polling with max %d is at %v after %d polls, the tip is %v (distance was %d)", id, sb.chunk, sb.idx, polls, tip, dist)
 			return
 		}
-		if want := (dist + sb.chunk - 1) / sb.chunk; polls != want && !w.pruned {
+		want := 0
+		if dist > 0 {
+			want = 1 + (dist-1)/sb.chunk
+		}
+		if polls != want && !w.pruned {
 			w.report("c04-wrong-number-of-polls", "subscriber %d at distance %d needed %d polls with max %d, expected %d", id, dist, polls, sb.chunk, want)
 			return
 		}
@@ -1074,6 +1089,11 @@ func run(c *hx.Ctx) {
 			res.Sample(map[string]any{"regime": chaingen.RegimeNames[cs.Regime], "blocks": len(t.Nodes) - 1, "events": evs, "stats": w.stats})
 		}
 	}
+	doRacing := func() {
+		if f := racing(c.Seed, c.Scale(24, 400), res.Distribution); f != nil {
+			res.Fail(f.kind, f.detail, map[string]any{"racing": true, "seed": c.Seed})
+		}
+	}
 	pre := func() bool {
 		bad := false
 		for regime := 0; regime < 3; regime++ {
@@ -1094,12 +1114,17 @@ func run(c *hx.Ctx) {
 			Replay struct {
 				Case      Case `json:"case"`
 				Preflight bool `json:"preflight"`
+				Racing    bool `json:"racing"`
 			} `json:"replay"`
 		}
 		b, _ := os.ReadFile(c.Replay)
 		json.Unmarshal(b, &rp)
 		if rp.Replay.Preflight {
 			pre()
+			return
+		}
+		if rp.Replay.Racing {
+			doRacing()
 			return
 		}
 		doCase(rp.Replay.Case)
@@ -1112,6 +1137,7 @@ func run(c *hx.Ctx) {
 		res.Notes = append(res.Notes, "the directed preflight history failed; generated histories were skipped")
 		return
 	}
+	doRacing()
 	// corpus: minimised earlier failures and false alarms (/verif/corpus/C04/*.json), run first
 	files, _ := filepath.Glob("/verif/corpus/C04/*.json")
 	sort.Strings(files)
@@ -1126,7 +1152,7 @@ func run(c *hx.Ctx) {
 			res.Count("corpus-histories")
 		}
 	}
-	n := c.Scale(250, 4000)
+	n := c.Scale(220, 4000)
 	for i := 0; i < n; i++ {
 		r := c.R.Fork()
 		doCase(genCase(r, i%6, i%10 == 9))
